@@ -23,6 +23,8 @@ def log_syslog(message: str) -> None:
     # Come on python
     message_bytes = message.encode(errors="surrogateescape")
     message = message_bytes.decode("utf-8", errors="backslashreplace")
+    # ... and raises ValueError on a NUL (a selector may hold one).
+    message = message.replace("\0", "\\x00")
     syslogfunc(priority, message)
 
 
